@@ -661,7 +661,9 @@ theorem rearranging_op_same_partial_map (coord : Coord) (v : Vol) (op : SOp) (w 
   · exact keepsAll_step_supermap hp hr.2 h
 
 /-- **Histories refine the partial map** (induction over arbitrary finite lists of spatial operations): what the final
-volume shows at `p` is what the original showed at `p`, or `p` is a lattice point of the original (padding). -/
+volume shows at `p` is what the original showed at `p`, or `p` is a lattice point of the original (padding) — possibly one
+the original covered: after crop-then-pad the padding value stands where a voxel was cut away (the sharp one-step statement is
+`pad_new_voxels_off_the_input`). -/
 theorem history_refines_partial_map (coord : Coord) (v : Vol) (ops : List Op) (w : VStep) (hp : v.geom.Pos)
     (hs : allSpatial (fun _ => true) ops) (h : runHistory coord v ops = .ok w) (p : V3) (c : List Nat) (x : Rat)
     (hw : w.1.Shows p c x) : v.Shows p c x ∨ v.geom.OnLattice p :=
